@@ -692,6 +692,11 @@ func ruleShrunkSetsNormalised(p *Program, r *Report) {
 								return true, "constructed under an emptiness test"
 							}
 						}
+						// a package-local helper all of whose results are built around a persistent insert (never empty),
+						// are one of its parameters unchanged, or come from a normaliser
+						if helperNeverEmpty(g, returnsNone, 0) {
+							return true, "helper " + g.Name() + " returns only non-empty or normalised results"
+						}
 						return false, "the result of " + g.Name() + ", which never returns None"
 					}
 					return true, "other"
@@ -874,3 +879,85 @@ func ruleHashNoBitPattern(p *Program, r *Report) {
 }
 
 func init() { register("C02", Rule{"R02i", ruleHashNoBitPattern}) }
+
+// helperNeverEmpty: every non-error return of g is a parameter handed back, a value whose store is the result of a
+// persistent insert (frozen Map.With / Set.With: at least the inserted entry), or the result of a normalising function.
+func helperNeverEmpty(g *ssa.Function, returnsNone map[*ssa.Function]bool, depth int) bool {
+	if g == nil || g.Blocks == nil || depth > 2 {
+		return false
+	}
+	var okVal func(v ssa.Value, d int) bool
+	okVal = func(v ssa.Value, d int) bool {
+		if d > 4 {
+			return false
+		}
+		switch x := v.(type) {
+		case *ssa.Parameter:
+			return true
+		case *ssa.Phi:
+			for _, e := range x.Edges {
+				if !okVal(e, d+1) {
+					return false
+				}
+			}
+			return true
+		case *ssa.Extract:
+			return okVal(x.Tuple, d+1)
+		case *ssa.Call:
+			k := x.Call.StaticCallee()
+			if k == nil {
+				return x.Call.IsInvoke()
+			}
+			if !InRepo(k) {
+				return baseName(k) == "With" && strings.Contains(k.String(), "arr-ai/frozen")
+			}
+			return returnsNone[k] || helperNeverEmpty(k, returnsNone, depth+1)
+		case *ssa.MakeInterface:
+			if _, isP := x.X.(*ssa.Parameter); isP {
+				return true
+			}
+			if c, ok := x.X.(*ssa.Call); ok {
+				return okVal(c, d+1)
+			}
+			if ld, ok := x.X.(*ssa.UnOp); ok {
+				if al, ok := ld.X.(*ssa.Alloc); ok && al.Referrers() != nil {
+					if _, isP := paramCell(al); isP {
+						return true
+					}
+					for _, ref := range *al.Referrers() {
+						if fa, ok := ref.(*ssa.FieldAddr); ok && fa.Referrers() != nil {
+							for _, r2 := range *fa.Referrers() {
+								if st, ok := r2.(*ssa.Store); ok && st.Addr == ssa.Value(fa) && okVal(st.Val, d+1) {
+									return true
+								}
+							}
+						}
+					}
+				}
+			}
+		case *ssa.UnOp:
+			if al, ok := x.X.(*ssa.Alloc); ok {
+				if _, isP := paramCell(al); isP {
+					return true
+				}
+			}
+		}
+		return false
+	}
+	n := 0
+	for _, b := range g.Blocks {
+		ret, ok := b.Instrs[len(b.Instrs)-1].(*ssa.Return)
+		if !ok || len(ret.Results) == 0 {
+			continue
+		}
+		last := len(ret.Results) - 1
+		if last > 0 && isErrorType(ret.Results[last].Type()) && !IsNilConst(RetVal(ret, last)) {
+			continue
+		}
+		n++
+		if !okVal(RetVal(ret, 0), 0) {
+			return false
+		}
+	}
+	return n > 0
+}
